@@ -325,6 +325,7 @@ def run(chk):
     from . import batcher
     batcher.bounded_retry(chk, P, "C12.batcher")
     batcher.retry_remainder(chk, P, "C12.batcher")
+    batcher.batch_error_helpers(chk, P, "C12.batcher")
     def grpc_frame():
         """gRPC length-prefixed framing: 1 flag byte (1 iff the body is compressed) + the payload length as 4 big-endian bytes."""
         bodies = [b for b in P.by_crate["emit_otlp"] if [c for c in b.calls(normal_only=True) if c.callee.get("name") == "with_content_frame"]]
